@@ -57,6 +57,9 @@ func init() {
 			if a.Counters["streams"] < 100 || a.Counters["frames_delivered"] < 5000 || a.Maxes["max_concurrent_parsers"] < 2 || a.Counters["streams_out_of_order"] < 1 || a.Counters["failing_streams"] < 10 {
 				return fmt.Errorf("too little observed: streams=%d delivered=%d max_parsers=%d out_of_order=%d failing=%d", a.Counters["streams"], a.Counters["frames_delivered"], a.Maxes["max_concurrent_parsers"], a.Counters["streams_out_of_order"], a.Counters["failing_streams"])
 			}
+			if a.SetSize("frame_kinds") < 20 {
+				return fmt.Errorf("only %d kinds of frames went through the stream", a.SetSize("frame_kinds"))
+			}
 			return nil
 		},
 		Assumptions: []string{
@@ -182,8 +185,20 @@ func c10Frames(cs *c10Case, c *fw.Ctx) (frames [][]byte, dumps []uint64, texts [
 			kind = gen.SwitchKinds[r.Intn(len(gen.SwitchKinds))]
 		}
 		var wire []byte
+		swKind := kind
 		for try := 0; try < 4 && wire == nil; try++ {
-			m := gen.SwitchMessage(r, kind)
+			m := gen.SwitchMessage(r, swKind)
+			kind = swKind
+			if cs.Profile != "small" && j%4 == 3 {
+				// the stream is symmetric: a switch-side or proxy user of the library receives what controllers send
+				// (flow-mods, group-mods, packet-outs with their payload, port-mods, multipart requests, vendor and bundle messages)
+				ck := gen.ControllerKinds[r.Intn(len(gen.ControllerKinds))]
+				if r.Chance(1, 2) {
+					ck = []string{"packet_out", "flow_mod", "group_mod", "bundle_add", "mp_request", "packet_out"}[r.Intn(6)]
+				}
+				m = gen.ControllerMessage(r, ck, gen.MsgOpt{})
+				kind = "ctrl:" + ck
+			}
 			if kind == "error" && (cs.Profile == "large" || r.Chance(1, 6)) {
 				m.SetB("data", r.Bytes(r.Pick(2040, 2041, 2047, 2048, 2049, 4096, 9000, r.Range(2000, 20000))))
 				if r.Chance(1, 12) {
@@ -208,6 +223,7 @@ func c10Frames(cs *c10Case, c *fw.Ctx) (frames [][]byte, dumps []uint64, texts [
 			})
 			if ok {
 				wire = b
+				c.Set("frame_kinds", kind)
 			}
 		}
 		if wire == nil { // fallback: a bare echo request
